@@ -5,6 +5,8 @@
 
 #include <etl/_config/all.hpp>
 
+#include <etl/_bit/bit_cast.hpp>
+#include <etl/_cstdint/uint_t.hpp>
 #include <etl/_type_traits/is_constant_evaluated.hpp>
 
 namespace etl {
@@ -14,7 +16,15 @@ namespace detail {
 template <typename T>
 [[nodiscard]] constexpr auto signbit_fallback(T arg) noexcept -> bool
 {
-    return arg == T(-0.0) || arg < T(0);
+    // the sign bit itself: -0.0 == +0.0 compares equal and a NaN compares false with everything
+    if constexpr (sizeof(T) == 4U) {
+        return (etl::bit_cast<etl::uint32_t>(arg) >> 31U) != 0U;
+    } else if constexpr (sizeof(T) == 8U) {
+        return (etl::bit_cast<etl::uint64_t>(arg) >> 63U) != 0U;
+    } else {
+        return arg < T(0) || (arg == T(0) && static_cast<double>(arg) == 0.0
+                                 && (etl::bit_cast<etl::uint64_t>(static_cast<double>(arg)) >> 63U) != 0U);
+    }
 }
 
 } // namespace detail
